@@ -182,6 +182,14 @@ class Env:
         return None
 
     def set(self, name, val):
+        if name in getattr(self, "nonlocals", ()):
+            # `nonlocal name`: the binding lives in the nearest enclosing scope that has it
+            e = self.parent
+            while e is not None:
+                if name in e.vars:
+                    e.vars[name] = val
+                    return
+                e = e.parent
         self.vars[name] = val
 
 
@@ -590,10 +598,15 @@ class Interp:
             for nm in _loop_carried(s.body):
                 if isinstance(env.lookup(nm), Num):
                     env.set(nm, sym_num(nm))
+            broke = False
             try:
                 self._exec_block(s.body, env)
-            except (_Break, _Continue):
+            except _Break:
+                broke = True
+            except _Continue:
                 pass
+            if s.orelse and not broke:
+                self._exec_block(s.orelse, env)  # while ... else: runs when the loop ends without break
         elif isinstance(s, ast.Raise):
             name = ""
             if s.exc is not None:
@@ -608,12 +621,17 @@ class Interp:
                 if self.decider.choose(("exc", name, s.lineno), f"{name} raised in try block at line {s.lineno}", default=False):
                     if h.name:
                         env.set(h.name, ExtObj("exception:" + name, {}, h))
-                    self._exec_block(h.body, env)
-                    self._exec_block(s.finalbody, env)
+                    # `finally` runs whatever leaves the handler (a return, a raise, a break); a return inside it overrides
+                    try:
+                        self._exec_block(h.body, env)
+                    finally:
+                        self._exec_block(s.finalbody, env)
                     return
-            self._exec_block(s.body, env)
-            self._exec_block(s.orelse, env)
-            self._exec_block(s.finalbody, env)
+            try:
+                self._exec_block(s.body, env)
+                self._exec_block(s.orelse, env)
+            finally:
+                self._exec_block(s.finalbody, env)
         elif isinstance(s, ast.With):
             for item in s.items:
                 v = self.eval(item.context_expr, env)
@@ -635,14 +653,50 @@ class Interp:
                         base.attrs.pop(aname, None)
                 elif isinstance(t, ast.Name):
                     env.vars.pop(t.id, None)
-        elif isinstance(s, (ast.Pass, ast.Import, ast.ImportFrom, ast.Global, ast.Nonlocal, ast.ClassDef, ast.Assert)):
+        elif isinstance(s, ast.Nonlocal):
+            env.nonlocals = set(getattr(env, "nonlocals", ())) | set(s.names)
+        elif isinstance(s, (ast.Pass, ast.Import, ast.ImportFrom, ast.Global, ast.ClassDef, ast.Assert)):
             return
         elif isinstance(s, ast.Break):
             raise _Break()
         elif isinstance(s, ast.Continue):
             raise _Continue()
+        elif isinstance(s, ast.Match):
+            self._exec_match(s, env)
         else:
             raise AnalysisError(f"{self.cur_func()}:{s.lineno}: unsupported statement {type(s).__name__}")
+
+    def _exec_match(self, s, env):
+        """match on literal values, `|` alternatives of them, captures and the wildcard: the if / elif chain it abbreviates"""
+        subj = self.eval(s.subject, env)
+
+        def test(pat):
+            if isinstance(pat, ast.MatchValue):
+                return self._compare(ast.Eq(), subj, self.eval(pat.value, env))
+            if isinstance(pat, ast.MatchSingleton):
+                v = NoneV() if pat.value is None else BoolV("const", bool(pat.value))
+                return self._compare(ast.Is(), subj, v)
+            if isinstance(pat, ast.MatchOr):
+                out = None
+                for q in pat.patterns:
+                    t = test(q)
+                    out = t if out is None else BoolV("or", out, t)
+                return out
+            if isinstance(pat, ast.MatchAs):
+                if pat.pattern is None:
+                    if pat.name:
+                        env.set(pat.name, subj)  # a capture (or `_`): matches everything
+                    return BoolV("const", True)
+                t = test(pat.pattern)
+                if pat.name:
+                    env.set(pat.name, subj)
+                return t
+            raise AnalysisError(f"{self.cur_func()}:{s.lineno}: unsupported match pattern {type(pat).__name__}")
+
+        for case in s.cases:
+            if self.decide(test(case.pattern), case.pattern) and (case.guard is None or self.decide(self.eval(case.guard, env), case.guard)):
+                self._exec_block(case.body, env)
+                return
 
     def _bind_out(self, call, result, env):
         """np.f(..., out=name): afterwards the array called `name` holds the result (a buffer that is not an explicit
@@ -675,6 +729,8 @@ class Interp:
                     continue
                 except _Break:
                     break
+            else:
+                self._exec_block(s.orelse, env)
             return
         if isinstance(it, GenV):
             # run the generator's body; at every `yield v` bind the target to v and run the loop body
@@ -707,18 +763,28 @@ class Interp:
                 self._assign(s.target.elts[1], self._index(it.inner, iv, s), env, s)
             else:
                 self._assign(s.target, self.num(it), env, s)
+        elif isinstance(it, ExtObj) and it.qual == "zip" and it.args and all(k.isdigit() for k in it.args) and all(isinstance(v, (Num, Vec)) for v in it.args.values()):
+            # zip(a, b, ...) of arrays: the generic element is the tuple of the arrays' generic elements
+            self._assign(s.target, TupV([self._element_of(it.args[k]) for k in sorted(it.args, key=int)]), env, s)
         else:
             # elementwise view of an array-like iterable
             self._assign(s.target, self._element_of(it), env, s)
         # `out = []` ... `for x in array: out.append(f(x))`: lists that are empty when the loop over an array starts
-        empties = {k: v for k, v in env.vars.items() if isinstance(v, TupV) and v.is_list and not v.items} if isinstance(it, (Num, Vec)) else {}
+        arrayish = isinstance(it, (Num, Vec)) or (isinstance(it, ExtObj) and it.qual == "zip" and it.args and all(isinstance(v, (Num, Vec)) for v in it.args.values()))
+        empties = {k: v for k, v in env.vars.items() if isinstance(v, TupV) and v.is_list and not v.items} if arrayish else {}
+        lens = {k: len(v.items) for k, v in env.vars.items() if isinstance(v, TupV) and v.is_list}
         self._loop_depth = getattr(self, "_loop_depth", 0) + 1
+        broke = False
         try:
             self._exec_block(s.body, env)
-        except (_Break, _Continue):
+        except _Break:
+            broke = True
+        except _Continue:
             pass
         finally:
             self._loop_depth -= 1
+        if s.orelse and not broke:
+            self._exec_block(s.orelse, env)  # for ... else: on the partition where no iteration breaks
         for k, lst in empties.items():
             if env.vars.get(k) is lst and len(lst.items) == 1 and isinstance(lst.items[0], Num) and not any(isinstance(n_, (ast.Break, ast.Continue, ast.If)) for st in s.body for n_ in ast.walk(st)):
                 # one unconditional append per element: the list is the comprehension [f(x) for x in array] - its
@@ -729,6 +795,12 @@ class Interp:
                 self._keepalive = getattr(self, "_keepalive", [])
                 self._keepalive.append(v)
                 env.vars[k] = v
+        for k, n0 in lens.items():
+            v = env.vars.get(k)
+            if isinstance(v, TupV) and v.is_list and len(v.items) != n0:
+                # a list that grows in a loop executed for a generic iteration has an unknown number of entries: it is
+                # not the literal list the single pass over the body left behind
+                env.vars[k] = Num(nf.fn("list@loop", *[self.to_nf(x) for x in v.items]))
 
     def run_generator(self, gen, consume):
         if gen.consumed:
@@ -928,6 +1000,13 @@ class Interp:
                 return self.decide(t.a, node) or self.decide(t.b, node)
         elif isinstance(t, NoneV):
             return False
+        elif isinstance(t, Inst) and (t.cls.lookup("__bool__") is not None or t.cls.lookup("__len__") is not None):
+            # truth of an object is what its __bool__ (else its __len__) says
+            m = t.cls.lookup("__bool__") or t.cls.lookup("__len__")
+            r = self.call(FuncV(m, None, t, m.cls), [], {}, node, None)
+            if m.name == "__len__":
+                r = self._compare(ast.NotEq(), r, Num(nf.const(0)))
+            return self.decide(r, node)
         elif isinstance(t, Num) and nf.is_const(t.nf):
             return bool(nf.cval(t.nf))
         elif not isinstance(t, BoolV):
@@ -1057,7 +1136,22 @@ class Interp:
     def _e_BinOp(self, n, env):
         return self._binop(n.op, self.eval(n.left, env), self.eval(n.right, env), n)
 
+    _DUNDER = {ast.Add: "add", ast.Sub: "sub", ast.Mult: "mul", ast.Div: "truediv", ast.Pow: "pow", ast.FloorDiv: "floordiv", ast.Mod: "mod", ast.MatMult: "matmul"}
+
     def _binop(self, op, a, b, node):
+        if isinstance(a, Inst) or isinstance(b, Inst):
+            # arithmetic on an object of a package class is what its operator methods say
+            nm = self._DUNDER.get(type(op))
+            if nm is not None:
+                if isinstance(a, Inst):
+                    m = a.cls.lookup(f"__{nm}__")
+                    if m is not None:
+                        return self.call(FuncV(m, None, a, m.cls), [b], {}, node, None)
+                if isinstance(b, Inst):
+                    m = b.cls.lookup(f"__r{nm}__")
+                    if m is not None:
+                        return self.call(FuncV(m, None, b, m.cls), [a], {}, node, None)
+            raise AnalysisError(f"{self.cur_func()}:{getattr(node, 'lineno', 0)}: arithmetic on an object whose class defines no method for it")
         if isinstance(op, ast.Div) and isinstance(b, (Num, Vec)) and getattr(self, "log_divisions", False):
             self.log("div", node, den=b)
         if isinstance(op, ast.MatMult):
@@ -1198,6 +1292,18 @@ class Interp:
                 return BoolV("const", not r.a) if r.kind == "const" else BoolV("not", r)
             return r
         sym = {ast.Eq: "==", ast.NotEq: "!=", ast.Lt: "<", ast.LtE: "<=", ast.Gt: ">", ast.GtE: ">="}[type(op)]
+        for x, y, refl in ((a, b, False), (b, a, True)):
+            if isinstance(x, Inst):
+                nm = {"==": "eq", "!=": "ne", "<": "lt", "<=": "le", ">": "gt", ">=": "ge"}[sym]
+                if refl:
+                    nm = {"lt": "gt", "le": "ge", "gt": "lt", "ge": "le"}.get(nm, nm)
+                m = x.cls.lookup(f"__{nm}__")
+                if m is None and nm == "ne" and x.cls.lookup("__eq__") is not None:
+                    r = self.call(FuncV(x.cls.lookup("__eq__"), None, x, x.cls.lookup("__eq__").cls), [y], {}, None, None)
+                    return BoolV("const", not r.a) if isinstance(r, BoolV) and r.kind == "const" else BoolV("not", r if isinstance(r, BoolV) else BoolV("opaque", nf.show(self.to_nf(r), 120)))
+                if m is not None:
+                    r = self.call(FuncV(m, None, x, m.cls), [y], {}, None, None)
+                    return r if isinstance(r, BoolV) else BoolV("opaque", nf.show(self.to_nf(r), 120))
         if sym == "==":
             # np.arange(n) == k : the mask that selects position k of a length-n vector
             for x, y in ((a, b), (b, a)):
@@ -1235,6 +1341,17 @@ class Interp:
         if a is not None and a[0] == "sym" and a[1].endswith("@option"):
             return False  # a value an internal caller computes for a new option (options.py): not the None default
         return a is not None
+
+    def _e_NamedExpr(self, n, env):
+        """name := value: binds in the enclosing function's scope (also from inside a comprehension) and is the value"""
+        v = self.eval(n.value, env)
+        e = env
+        while e.parent is not None and e.parent.func is e.func and e.func is not None:
+            e = e.parent
+        e.set(n.target.id, v)
+        if e is not env:
+            env.vars.pop(n.target.id, None)
+        return v
 
     def _e_IfExp(self, n, env):
         if self.decide(self.eval(n.test, env), n.test):
@@ -1899,6 +2016,10 @@ class Interp:
             if len(args) == 1 and not kwargs and isinstance(args[0], Vec):
                 return self._map1(args[0], lambda x: nf.fn(name, x))
             return Num(nf.fn(name, *parts))
+        if isinstance(callee, Inst):
+            m = callee.cls.lookup("__call__")
+            if m is not None:
+                return self.call(FuncV(m, None, callee, m.cls), args, kwargs, node, env)
         raise AnalysisError(f"{self.cur_func()}:{getattr(node, 'lineno', 0)}: cannot call {type(callee).__name__}")
 
     def _construct(self, ci: ClassInfo, args, kwargs, node):
